@@ -80,19 +80,19 @@ def wasserstein(dgm1, dgm2, matching=False):
     # Put diagonal elements into the matrix
     # Rotate the diagrams to make it easy to find the straight line
     # distance to the diagonal
-    cp = np.cos(np.pi/4)
-    sp = np.sin(np.pi/4)
-    R = np.array([[cp, -sp], [sp, cp]])
-    S = S[:, 0:2].dot(R)
-    T = T[:, 0:2].dot(R)
+    # (as (death - birth) / sqrt(2): the second coordinate after a rotation by 45
+    # degrees, cos*d - sin*b, is off by an ulp of the COORDINATES because the
+    # floating-point cos(pi/4) and sin(pi/4) differ in the last bit)
+    diag_S = (S[:, 1].astype(float) - S[:, 0]) / np.sqrt(2)
+    diag_T = (T[:, 1].astype(float) - T[:, 0]) / np.sqrt(2)
     D = np.zeros((M+N, M+N))
     np.fill_diagonal(D, 0)
     D[0:M, 0:N] = DUL
     UR = np.inf*np.ones((M, M))
-    np.fill_diagonal(UR, S[:, 1])
+    np.fill_diagonal(UR, diag_S)
     D[0:M, N:N+M] = UR
     UL = np.inf*np.ones((N, N))
-    np.fill_diagonal(UL, T[:, 1])
+    np.fill_diagonal(UL, diag_T)
     D[M:N+M, 0:N] = UL
 
     # Step 2: Run the hungarian algorithm
